@@ -350,6 +350,9 @@ func c31Exec(c *Case) {
 					mr = fmt.Sprintf("b:-1:%d:0:0:!:0", n)
 				case "cut":
 					mr = fmt.Sprintf("b:%d:%d:1:0:!:0", n, n/2)
+					if n == 0 { // nothing to cut: an ordinary empty body
+						mr = "b:0:0:0:0:!:0"
+					}
 				}
 				h := sha256.Sum256(bytes.Repeat([]byte{'b'}, n))
 				bodies[hex.EncodeToString(h[:])] = bodyInfo{n, n}
